@@ -139,13 +139,9 @@ class ParameterHistory:
         ValueError
             Raised if the parameter labels differs from previous.
         """
-        (
-            parameter_labels,
-            parameter_values,
-            _,
-            _,
-        ) = parameters.get_label_value_and_bounds_arrays()
-        parameter_labels = ["iteration", *parameter_labels]
+        parameters.update_parameter_expression()
+        parameter_values = [parameter.value for parameter in parameters.all()]
+        parameter_labels = ["iteration", *(parameter.label for parameter in parameters.all())]
         if len(self._parameter_labels) == 0:
             self._parameter_labels = parameter_labels
         if parameter_labels != self.parameter_labels:
